@@ -25,6 +25,8 @@ mod mon_c10;
 mod mon_c11;
 mod mon_c12;
 mod mon_c13;
+mod mon_c16;
+mod mon_c16_core;
 mod pool;
 mod ref_dfa;
 mod ref_earley;
@@ -160,6 +162,7 @@ fn main() {
         "C11" => mon_c11::run(&mut ctx),
         "C12" => mon_c12::run(&mut ctx),
         "C13" => mon_c13::run(&mut ctx),
+        "C16" => mon_c16::run(&mut ctx),
         _ => {
             eprintln!("unknown property {prop}");
             std::process::exit(2);
